@@ -110,6 +110,8 @@ impl ShutdownHandle {
     /// Request the daemon to shut down.
     pub fn shutdown(&self) {
         self.state.shutdown_requested.store(true, Ordering::Release);
+        #[cfg(feature = "verif-hooks")]
+        vhost::vhost_user::verif_hooks::hold("shutdown.between_flag_and_socket", 0);
         let _ = self.state.conn.shutdown(Shutdown::Both);
     }
 }
@@ -178,10 +180,16 @@ where
             .name(self.name.clone())
             .spawn(move || {
                 let result = loop {
+                    #[cfg(feature = "verif-hooks")]
+                    vhost::vhost_user::verif_hooks::hold("daemon.before_handle_request", 0);
                     if let Err(e) = handler.handle_request().map_err(Error::HandleRequest) {
                         break Err(e);
                     }
+                    #[cfg(feature = "verif-hooks")]
+                    vhost::vhost_user::verif_hooks::hold("daemon.after_handle_request_ok", 0);
                 };
+                #[cfg(feature = "verif-hooks")]
+                vhost::vhost_user::verif_hooks::hold("daemon.before_final_shutdown", 0);
                 let _ = thread_state.conn.shutdown(Shutdown::Both);
                 result
             })
